@@ -5,42 +5,110 @@ From Entrait.Proofs Require Import Base Sem.
 Import ListNotations.
 Local Open Scope list_scope.
 
+(** the dynamic-inversion form, read from its end:
+    [< EntraitT as ::core::{convert::AsRef|borrow::Borrow} < dyn It < EntraitT > [+ ::core::marker::Sync] > > :: via ( & * self ) . m ( self , args )] *)
+Fixpoint dyn_target (ts : toks) : option string :=
+  match ts with
+  | [] => None
+  | t :: r =>
+      match r with
+      | TId it :: _ => if is_id "dyn" t then Some it else dyn_target r
+      | _ => dyn_target r
+      end
+  end.
+
+Definition eval_dyn_call (params : list string) (core : toks) (aw : bool) : option event :=
+  match rev core with
+  | TG Paren args :: TId m :: d :: TG Paren recv :: TId via :: r =>
+      if is_p "." d && toks_eqb recv [pc "&"; pc "*"; TId "self"] &&
+         (String.eqb via "as_ref" || String.eqb via "borrow") then
+        match rev r with
+        | l1 :: e1 :: as_ :: rest =>
+            if is_p "<" l1 && is_id "EntraitT" e1 && is_id "as" as_ then
+              match dyn_target rest, read_args args with
+              | Some it, Some names => Some (mkEvent (CDyn via it m) (map (lookup params) names) aw)
+              | _, _ => None
+              end
+            else None
+        | _ => None
+        end
+      else None
+  | _ => None
+  end.
+
+Definition eval_fixed_call (params : list string) (core : toks) (aw : bool) : option event :=
+  match core with
+  | [s; d1; h1; TG Paren []; d2; TId m; TG Paren args] =>
+      (* self . as_ref|into_inner ( ) . m ( args ) *)
+      if is_id "self" s && is_p "." d1 && (is_id "as_ref" h1 || is_id "into_inner" h1) && is_p "." d2 then
+        match read_args args with
+        | Some names => Some (mkEvent (CProvider [if is_id "into_inner" h1 then "into_inner"%string else "as_ref"%string] m) (map (lookup params) names) aw)
+        | None => None
+        end
+      else None
+  | [s; d1; h1; TG Paren []; d2; TId h2; TG Paren []; d3; TId m; TG Paren args] =>
+      (* self . as_ref ( ) . as_ref|borrow ( ) . m ( args ) *)
+      if is_id "self" s && is_p "." d1 && is_id "as_ref" h1 && is_p "." d2 && is_p "." d3 &&
+         (String.eqb h2 "as_ref" || String.eqb h2 "borrow") then
+        match read_args args with
+        | Some names => Some (mkEvent (CProvider ["as_ref"%string; h2] m) (map (lookup params) names) aw)
+        | None => None
+        end
+      else None
+  | [l1; e1; c1; c2; tg; as_; TId it; l2; e2; g1; g2; c3; c4; TId m; TG Paren args] =>
+      (* < EntraitT :: Target as it < EntraitT > > :: m ( self , args ) *)
+      if is_p "<" l1 && is_id "EntraitT" e1 && is_p ":" c1 && is_p ":" c2 && is_id "Target" tg && is_id "as" as_ &&
+         is_p "<" l2 && is_id "EntraitT" e2 && is_p ">" g1 && is_p ">" g2 && is_p ":" c3 && is_p ":" c4 then
+        match read_args args with
+        | Some names => Some (mkEvent (CTarget it m) (map (lookup params) names) aw)
+        | None => None
+        end
+      else None
+  | _ => None
+  end.
+
 Definition eval_provider_call (params : list string) (body : toks) : option event :=
   match body with
   | [TG Brace inner] =>
       let '(core, aw) := strip_await inner in
-      match core with
-      | [s; d1; h1; TG Paren []; d2; TId m; TG Paren args] =>
-          (* self . as_ref ( ) . m ( args ) *)
-          (* self . as_ref|into_inner ( ) . m ( args ) *)
-          if is_id "self" s && is_p "." d1 && (is_id "as_ref" h1 || is_id "into_inner" h1) && is_p "." d2 then
-            match read_args args with
-            | Some names => Some (mkEvent (CProvider [if is_id "into_inner" h1 then "into_inner"%string else "as_ref"%string] m) (map (lookup params) names) aw)
-            | None => None
-            end
-          else None
-      | [s; d1; h1; TG Paren []; d2; TId h2; TG Paren []; d3; TId m; TG Paren args] =>
-          (* self . as_ref ( ) . as_ref|borrow ( ) . m ( args ) *)
-          if is_id "self" s && is_p "." d1 && is_id "as_ref" h1 && is_p "." d2 && is_p "." d3 &&
-             (String.eqb h2 "as_ref" || String.eqb h2 "borrow") then
-            match read_args args with
-            | Some names => Some (mkEvent (CProvider ["as_ref"%string; h2] m) (map (lookup params) names) aw)
-            | None => None
-            end
-          else None
-      | [l1; e1; c1; c2; tg; as_; TId it; l2; e2; g1; g2; c3; c4; TId m; TG Paren args] =>
-          (* < EntraitT :: Target as it < EntraitT > > :: m ( self , args ) *)
-          if is_p "<" l1 && is_id "EntraitT" e1 && is_p ":" c1 && is_p ":" c2 && is_id "Target" tg && is_id "as" as_ &&
-             is_p "<" l2 && is_id "EntraitT" e2 && is_p ">" g1 && is_p ">" g2 && is_p ":" c3 && is_p ":" c4 then
-            match read_args args with
-            | Some names => Some (mkEvent (CTarget it m) (map (lookup params) names) aw)
-            | None => None
-            end
-          else None
-      | _ => None
+      match eval_dyn_call params core aw with
+      | Some e => Some e
+      | None => eval_fixed_call params core aw
       end
   | _ => None
   end.
+
+Lemma dyn_target_abs_path it rest : forall segs,
+  dyn_target (abs_path segs ++ pc "<" :: TId "dyn" :: TId it :: rest) = Some it.
+Proof.
+  induction segs as [|sg segs IH].
+  - reflexivity.
+  - change (abs_path (sg :: segs)) with ([pc ":"; pc ":"; TId sg] ++ abs_path segs).
+    rewrite <- app_assoc. cbn [app dyn_target pc is_id].
+    destruct segs as [|s2 segs'].
+    + cbn [abs_path flat_map app] in IH |- *. exact IH.
+    + change (abs_path (s2 :: segs')) with ([pc ":"; pc ":"; TId s2] ++ abs_path segs') in IH |- *.
+      rewrite <- app_assoc in IH |- *. cbn [app pc] in IH |- *. exact IH.
+Qed.
+
+Lemma eval_dyn_spec params (core_path : list string) via it m (ca : bool) Y names aw :
+  (via = "as_ref" \/ via = "borrow")%string ->
+  read_args Y = Some names ->
+  eval_dyn_call params
+    ([pc "<"; TId "EntraitT"; TId "as"] ++ abs_path core_path ++
+     ([pc "<"; TId "dyn"; TId it; pc "<"; TId "EntraitT"; pc ">"] ++
+      (if ca then [pc "+"] ++ core_marker "Sync" else []) ++ [pc ">"; pc ">"]) ++ path_sep ++
+     [TId via; TG Paren [pc "&"; pc "*"; TId "self"]; pc "."; TId m; TG Paren Y]) aw
+  = Some (mkEvent (CDyn via it m) (map (lookup params) names) aw).
+Proof.
+  intros Hv Hr. unfold eval_dyn_call.
+  rewrite !app_assoc. rewrite rev_app_distr. cbn [rev app].
+  assert (Ev : (String.eqb via "as_ref" || String.eqb via "borrow")%bool = true) by (destruct Hv as [-> | ->]; reflexivity).
+  rewrite Ev. cbn [is_p tt_eqb pc andb].
+  rewrite !rev_app_distr, rev_involutive. cbn [rev app is_p is_id tt_eqb pc andb].
+  rewrite <- !app_assoc. cbn [app].
+  rewrite dyn_target_abs_path, Hr. reflexivity.
+Qed.
 
 Lemma read_args_self_join names :
   read_args ([TId "self"; comma] ++ join [comma] (map (fun n => [TId n]) names)) = Some ("self"%string :: names).
@@ -64,9 +132,15 @@ Definition c06_expected_event (a : trait_attr) (s : sig) : option event :=
   | None, Some (ByRef RAsRef) => Some (mkEvent (CProvider ["as_ref"; "as_ref"]%string (s_name s)) (map VArg (seq 0 n)) (s_async s))
   | None, Some (ByRef RBorrow) => Some (mkEvent (CProvider ["as_ref"; "borrow"]%string (s_name s)) (map VArg (seq 0 n)) (s_async s))
   | Some it, Some (ByTrait _) => Some (mkEvent (CTarget it (s_name s)) (VSelf :: map VArg (seq 0 n)) (s_async s))
-  | Some _, Some (ByRef _) => None      (* dynamic inversion: not covered by this evaluator *)
+  | Some it, Some (ByRef r) =>
+      Some (mkEvent (CDyn (match r with RAsRef => "as_ref" | RBorrow => "borrow" end)%string it (s_name s))
+                    (VSelf :: map VArg (seq 0 n)) (s_async s))
   | _, _ => Some (mkEvent (CProvider [if plain_self_by_value s then "into_inner"%string else "as_ref"%string] (s_name s)) (map VArg (seq 0 n)) (s_async s))
   end.
+
+Lemma strip_await_dyn A B C D x1 x2 x3 x4 Y :
+  strip_await (A ++ B ++ C ++ D ++ [x1; x2; x3; x4; TG Paren Y]) = (A ++ B ++ C ++ D ++ [x1; x2; x3; x4; TG Paren Y], false).
+Proof. unfold strip_await. rewrite !app_assoc, rev_app_distr. cbn [rev app]. reflexivity. Qed.
 
 Theorem eval_c06_call a ca s ev :
   NoDup (typed_names s) -> ~ In "self"%string (typed_names s) ->
@@ -84,10 +158,51 @@ Proof.
   remember ([TId "self"; comma] ++ X) as Y eqn:HY.
   remember (typed_names s) as params eqn:HP. remember (s_name s) as m eqn:Hm.
   remember (map VArg (seq 0 (List.length params))) as VS eqn:HVS.
-  clear HX HP Hm HVS Hn Hs.
-  destruct (plain_self_by_value s);
-  destruct (ta_impl_trait a) as [it|]; destruct (ta_delegate a) as [[|[|]|d]|]; try discriminate He;
+  clear HX HP Hm HVS Hn Hs. cbv zeta.
+  destruct (ta_impl_trait a) as [it|] eqn:Eit; destruct (ta_delegate a) as [[|r|d]|] eqn:Ed.
+  2: { (* dynamic inversion: read from the end of the call *)
+       injection He as <-. destruct r; rewrite strip_await_dyn; destruct (s_async s); cbv iota beta.
+       - rewrite (eval_dyn_spec params ["core"; "convert"; "AsRef"]%string "as_ref"%string it m ca Y _ true (or_introl eq_refl) Hrs).
+         rewrite Hls. reflexivity.
+       - rewrite (eval_dyn_spec params ["core"; "convert"; "AsRef"]%string "as_ref"%string it m ca Y _ false (or_introl eq_refl) Hrs).
+         rewrite Hls. reflexivity.
+       - rewrite (eval_dyn_spec params ["core"; "borrow"; "Borrow"]%string "borrow"%string it m ca Y _ true (or_intror eq_refl) Hrs).
+         rewrite Hls. reflexivity.
+       - rewrite (eval_dyn_spec params ["core"; "borrow"; "Borrow"]%string "borrow"%string it m ca Y _ false (or_intror eq_refl) Hrs).
+         rewrite Hls. reflexivity. }
+  all: try destruct r.
+  all: destruct (plain_self_by_value s); try discriminate He;
     injection He as <-; destruct (s_async s); cbn; rewrite ?Hr, ?Hrs, ?Hl, ?Hls; try reflexivity;
     try (destruct X; reflexivity);
     subst Y; cbn; rewrite ?Hrs, ?Hls; try reflexivity; destruct X; reflexivity.
 Qed.
+
+(** the evaluator covers every delegation kind *)
+Lemma c06_expected_event_total a s : exists ev, c06_expected_event a s = Some ev.
+Proof.
+  unfold c06_expected_event. destruct (ta_impl_trait a), (ta_delegate a) as [[|[|]|d]|]; eexists; reflexivity.
+Qed.
+
+(** dependency inversion (C07): the method of [Impl<T>] performs exactly one call — of the target selected
+    statically ([<T::Target as It<T>>::m]) or of the [dyn It<T>] object obtained from [T] by [as_ref] / [borrow] —
+    with the caller's [&Impl<T>] first and the caller's arguments in declared order *)
+Definition c07_callee (a : trait_attr) (it m : string) : callee :=
+  match ta_delegate a with
+  | Some (ByRef RAsRef) => CDyn "as_ref" it m
+  | Some (ByRef RBorrow) => CDyn "borrow" it m
+  | _ => CTarget it m
+  end.
+
+Lemma c07_call_event a ca s it :
+  ta_impl_trait a = Some it ->
+  (exists d, ta_delegate a = Some (ByTrait d)) \/ (exists r, ta_delegate a = Some (ByRef r)) ->
+  NoDup (typed_names s) -> ~ In "self"%string (typed_names s) ->
+  eval_provider_call (typed_names s)
+    [TG Brace (c06_call a ca s ++ (if s_async s then [pc "."; TId "await"] else []))]
+  = Some (mkEvent (c07_callee a it (s_name s)) (VSelf :: map VArg (seq 0 (List.length (typed_names s)))) (s_async s)).
+Proof.
+  intros Hit Hd Hn Hs. apply eval_c06_call; try assumption.
+  unfold c06_expected_event, c07_callee. rewrite Hit.
+  destruct Hd as [[d ->] | [[|] ->]]; reflexivity.
+Qed.
+
